@@ -162,13 +162,21 @@ theorem no_unclassified_wait_site :
 
 /-- on both paths the transport is marked inactive, and on both `accept` waiters are notified after that -/
 theorem accept_is_notified_after_inactive :
-    srcProg .accept .remote = [.setInactive, .notify] ∧ srcProg .accept .localClose = [.setInactive, .notify] := by
+    srcProg "self.server_accept_cv" .remote = [.setInactive, .notify] ∧
+    srcProg "self.server_accept_cv" .localClose = [.setInactive, .notify] := by
   decide
 
 /-- both paths close every channel (flag + notify_all reach channel waiters) -/
 theorem both_paths_close_channels :
-    LAct.setFlag ∈ srcProg .chanCv .remote ∧ LAct.notify ∈ srcProg .chanCv .remote ∧
-    LAct.setFlag ∈ srcProg .chanCv .localClose ∧ LAct.notify ∈ srcProg .chanCv .localClose := by decide
+    ∀ obj ∈ ["self._cv", "self.out_buffer_cv"],
+      LAct.setFlag ∈ srcProg obj .remote ∧ LAct.notify ∈ srcProg obj .remote ∧
+      LAct.setFlag ∈ srcProg obj .localClose ∧ LAct.notify ∈ srcProg obj .localClose := by decide
+
+/-- closing a channel wakes every kind of channel waiter unconditionally (statements of `_set_closed` and
+    `BufferedPipe.close` outside any condition, regenerated from the source) -/
+theorem closing_a_channel_wakes_every_waiter :
+    chanEffect "self.event" = [.setFlag] ∧ chanEffect "self.status_event" = [.setFlag] ∧
+    chanEffect "self._cv" = [.setFlag, .notify] ∧ chanEffect "self.out_buffer_cv" = [.setFlag, .notify] := by decide
 
 /-! ### any number of callers blocked on the same object (notify_all reaches every one) -/
 
